@@ -394,6 +394,18 @@ func replSysCmd(args []string) int {
 	d := &replDriver{conc: Conc{Class: *class, Seed: *seed}, keys: []string{"k1", "k2", "k3"}, vals: txVals, dir: *dir,
 		paddr: replFreeAddr(), raddr: replFreeAddr(), stopS: make(chan struct{})}
 	json.Unmarshal([]byte(*cfgJSON), &d.cc)
+	// every key a step names is part of the projected state (the many keys of a "long" batch)
+	for _, st := range sc.Steps {
+		for _, x := range st.Op {
+			known := false
+			for _, k := range d.keys {
+				known = known || k == x.K
+			}
+			if !known {
+				d.keys = append(d.keys, x.K)
+			}
+		}
+	}
 	d.log, err = newEvLog(*out)
 	if err != nil {
 		fmt.Fprintln(stderr, err)
